@@ -170,6 +170,9 @@ pub fn map_lane_item(lane: &str) -> Option<i32> {
 struct Gen {
     rng: Rng,
     next_val: i32,
+    /// Added to every integer map key: the key sets {0..}, {8..} (one and two digits) and {-3..} (negative and
+    /// positive) order differently as numbers and as text.
+    key_off: i32,
     /// The scripted agent has no control lane: only direct commands.
     fake: bool,
     fake_persist: bool,
@@ -262,7 +265,7 @@ fn gen_read(rng: &mut Rng, slow_bias: bool) -> ReadCfg {
 
 pub fn generate(seed: u64, focus: &str, _tier: Tier) -> AgentScenario {
     let root = Rng::new(seed);
-    let mut g = Gen { rng: root.sub("scenario"), next_val: 1000, fake: focus == "C04F" || focus == "C05F", fake_persist: focus == "C05F" };
+    let mut g = Gen { rng: root.sub("scenario"), key_off: *root.sub("key-off").pick(&[0i32, 0, 8, 8, -3, 97]), next_val: 1000, fake: focus == "C04F" || focus == "C05F", fake_persist: focus == "C05F" };
     let mix = mix_for(focus);
     let small = g.rng.chance(3, 4);
     let buf_choices: &[u32] = if small { &[8, 12, 16, 24, 32, 48, 64, 128] } else { &[256, 4096] };
@@ -532,13 +535,13 @@ fn gen_op(g: &mut Gen, mix: &Mix, key_pool: i32, ops: &mut Vec<Op>, linked: &mut
     } else if take(mix.map) {
         let lane = pick_map_lane(&mut g.rng);
         let item = map_lane_item(lane).unwrap();
-        let key = g.rng.range_i(0, key_pool as i64 - 1) as i32;
+        let key = g.rng.range_i(0, key_pool as i64 - 1) as i32 + g.key_off;
         match g.rng.below(20) {
             0..=6 => {
                 let n = *g.rng.pick(&[1i32, 1, 2, 4, 12]);
                 for _ in 0..n {
                     let v = g.vals(1);
-                    let k = g.rng.range_i(0, key_pool as i64 - 1);
+                    let k = g.rng.range_i(0, key_pool as i64 - 1) + g.key_off as i64;
                     ops.push(Op::Cmd { lane: lane.to_string(), body: format!("@update(key:{k}) {v}") });
                 }
             }
@@ -557,7 +560,7 @@ fn gen_op(g: &mut Gen, mix: &Mix, key_pool: i32, ops: &mut Vec<Op>, linked: &mut
             10..=11 => {
                 let n = g.rng.range_i(1, key_pool as i64) as i32;
                 let start = g.vals(n);
-                let ctl = Ctl::UpdKeys { item, key: 0, start, n };
+                let ctl = Ctl::UpdKeys { item, key: g.key_off, start, n };
                 ops.push(Op::Cmd { lane: "ctl".into(), body: ctl_recon(&ctl) });
             }
             12..=13 => ops.push(Op::Cmd { lane: lane.to_string(), body: format!("@remove(key:{key})") }),
